@@ -678,6 +678,7 @@ class Emitter:
 
     def fname(s, g):
         if g in s.stubs: return s.stubs[g]
+        if g in getattr(s, 'wraps', ()): return 'w_' + cid(g)     # --wrap: call sites go to w_<name> (harness-defined); the real body keeps its own name
         f = s.m.fns.get(g)
         if f is not None and f.body is None: return 'x_' + cid(g)
         return s.prefix + cid(g)
@@ -815,7 +816,7 @@ class Emitter:
         out = []
         ps = ', '.join('%s v_%s' % (s.ctype(t), cid(n)) for (t, n) in params) or 'void'
         if f.vararg: ps += ', ...'
-        out.append('/* fn: %s */\n%s %s(%s)\n{' % (f.name[1:], s.ctype(f.ret), s.fname(f.name), ps))
+        out.append('/* fn: %s */\n%s %s(%s)\n{' % (f.name[1:], s.ctype(f.ret), (s.prefix + cid(f.name)) if f.name in getattr(s, 'wraps', ()) else s.fname(f.name), ps))
         decls = collections.OrderedDict(); body = []
         labels = {}
         blocks = [((entry_label if lab == '__entry' else lab), ins) for lab, ins in blocks]
@@ -906,6 +907,23 @@ class Emitter:
             for ins in inss:
                 if ins.op == 'cast' and ins.cop == 'bitcast' and ins.a.kind == 'local' and isinstance(ins.ty, PtrTy) and isinstance(s.resolve(ins.ty.to), StructTy):
                     s.typed_new.setdefault(ins.a.name, ins.ty.to)
+        # opt-in (--typed-alloc): element type of an operator new / new[] result whose size is not a literal (allocator<T>::allocate(n), new T[n]):
+        # taken from the first bitcast of the result, or from the slot type it is stored through (T** slot viewed as i8**)
+        s.alloc_elem = {}
+        if getattr(s, 'typed_alloc', False):
+            bc_src = {}
+            for lab, inss in blocks:
+                for ins in inss:
+                    if ins.op == 'cast' and ins.cop == 'bitcast' and ins.res and isinstance(ins.ty, PtrTy):
+                        bc_src[ins.res] = ins.a
+                        if ins.a.kind == 'local' and not (isinstance(ins.ty.to, IntTy) and ins.ty.to.bits == 8) and not isinstance(ins.ty.to, (VoidTy, FnTy, OtherTy)):
+                            s.alloc_elem.setdefault(ins.a.name, ins.ty.to)
+            for lab, inss in blocks:
+                for ins in inss:
+                    if ins.op == 'store' and ins.v.kind == 'local' and ins.a.kind == 'local' and ins.a.name in bc_src:
+                        st = bc_src[ins.a.name].ty
+                        if isinstance(st, PtrTy) and isinstance(st.to, PtrTy) and not isinstance(st.to.to, (VoidTy, FnTy, OtherTy)) and not (isinstance(st.to.to, IntTy) and st.to.to.bits == 8):
+                            s.alloc_elem.setdefault(ins.v.name, st.to.to)
         zero_ret = '' if isinstance(f.ret, VoidTy) else ' (%s){0}' % s.ctype(f.ret) if s.is_agg(f.ret) else ' 0'
         propagate = 'if (__vf_exc_pending) return%s;' % zero_ret
         if getattr(s, 'rpo', False) and not s.loopcuts.get(f.name[1:]):
@@ -962,7 +980,7 @@ class Emitter:
                 elif op == 'load':
                     decls[r] = s.ctype(ins.ty); body.append('%s = *%s;' % (r, s.expr(ins.a)))
                 elif op == 'store':
-                    body.append('*%s = %s;' % (s.expr(ins.a), s.expr(ins.v, ins.ty)))
+                    body.append('*%s = %s;%s' % (s.expr(ins.a), s.expr(ins.v, ins.ty), ' VF_YIELD();' if getattr(ins, 'atomic', False) else ''))
                 elif op == 'gep':
                     # result type: pointer to indexed type
                     cur = ins.bty
@@ -992,9 +1010,13 @@ class Emitter:
                     body.append('return%s; /* resume: exception stays pending */' % zero_ret)
                 elif op in ('call', 'invoke'):
                     s.emit_call(ins, r, decls, body)
+                    # __cxa_end_catch of the exception model never throws; after `throw;` inside a handler the flag is (still) pending while the
+                    # handler's clean-up runs end_catch: testing the flag here would misread the rethrown exception as one thrown by end_catch
+                    endcatch = ins.callee.kind == 'global' and ins.callee.name == '@__cxa_end_catch'
                     if op == 'invoke':
-                        body.append('if (__vf_exc_pending) %s else %s' % (edge(lab, ins.unwind), edge(lab, ins.normal)))
-                    elif not getattr(ins, 'nothrow', False):
+                        if endcatch: body.append(edge(lab, ins.normal))
+                        else: body.append('if (__vf_exc_pending) %s else %s' % (edge(lab, ins.unwind), edge(lab, ins.normal)))
+                    elif not getattr(ins, 'nothrow', False) and not endcatch:
                         body.append(propagate)
                 elif op == 'landingpad':
                     decls[r] = s.ctype(ins.ty)
@@ -1024,7 +1046,7 @@ class Emitter:
                 elif op == 'fence': body.append('__vf_fence();')
                 elif op == 'cmpxchg':
                     decls[r] = s.ctype(StructTy([ins.ty, IntTy(1)]))
-                    body.append('VF_ATOMIC_BEGIN(); %s.f0 = *%s; %s.f1 = (%s.f0 == %s); if (%s.f1) *%s = %s; VF_ATOMIC_END();' %
+                    body.append('VF_ATOMIC_BEGIN(); %s.f0 = *%s; %s.f1 = (%s.f0 == %s); if (%s.f1) *%s = %s; VF_ATOMIC_END(); VF_YIELD();' %
                                 (r, s.expr(ins.a), r, r, s.expr(ins.c, ins.ty), r, s.expr(ins.a), s.expr(ins.n, ins.ty)))
                 elif op == 'atomicrmw':
                     decls[r] = s.ctype(ins.ty)
@@ -1033,7 +1055,7 @@ class Emitter:
                     if o: upd = '*%s = %s;' % (p_, s.mask('%s %s %s' % (r, o, s.expr(ins.v, ins.ty)), ins.ty))
                     elif ins.rop == 'xchg': upd = '*%s = %s;' % (p_, s.expr(ins.v, ins.ty))
                     else: raise NotImplementedError('atomicrmw ' + ins.rop)
-                    body.append('VF_ATOMIC_BEGIN(); %s = *%s; %s VF_ATOMIC_END();' % (r, p_, upd))
+                    body.append('VF_ATOMIC_BEGIN(); %s = *%s; %s VF_ATOMIC_END(); VF_YIELD();' % (r, p_, upd))
                 else:
                     raise NotImplementedError(op)
         for nm, ct in decls.items():
@@ -1087,6 +1109,9 @@ class Emitter:
         elif c.kind == 'global' and c.name in ('@_Znwm', '@__cxa_allocate_exception') and c.name not in s.stubs and ins.res in s.typed_new and args[0].kind == 'num':   # exception objects too: a typed object keeps the vptr load of e.what() constant
             ty = s.typed_new[ins.res]
             call = '(uint8_t*)__vf_typed_new(malloc(sizeof(%s)), %s, sizeof(%s))' % (s.ctype(ty), A[0], s.ctype(ty))
+        elif c.kind == 'global' and c.name in ('@_Znwm', '@_Znam') and c.name not in s.stubs and args[0].kind != 'num' and ins.res in getattr(s, 'alloc_elem', {}):
+            et = s.ctype(s.alloc_elem[ins.res])     # --typed-alloc: n elements of the type the result is used as (CBMC then keeps the object field-sensitive)
+            call = '(uint8_t*)__vf_typed_new(malloc(sizeof(%s) * ((%s) / sizeof(%s))), %s, sizeof(%s) * ((%s) / sizeof(%s)))' % (et, A[0], et, A[0], et, A[0], et)
         elif c.kind == 'global':
             fn = s.m.fns.get(c.name)
             # cast args to declared param types when pointer types differ
@@ -1291,6 +1316,7 @@ class Emitter:
             f = s.m.fns.get(fnm)
             if f is None: continue
             protos.append(s.proto(f) + ';')
+            if fnm in getattr(s, 'wraps', ()) and f.body is not None: protos.append(s.proto(f, s.prefix + cid(fnm)) + ';')
         seen_st = set()
         for g in s.stubs:
             f = s.m.fns.get(g)
@@ -1367,6 +1393,8 @@ def main():
     ap.add_argument('--loopcut', action='append', default=[], help='fn:hook:var1,var2,... (needs -g IR)')
     ap.add_argument('--rpo', action='store_true', help='emit basic blocks in reverse post-order (fewer spurious backward gotos)')
     ap.add_argument('--vdispatch', action='store_true', help='dispatch virtual calls explicitly over the functions in the same vtable slot of this module')
+    ap.add_argument('--typed-alloc', action='store_true', help='operator new / new[] with a non-literal size: allocate n elements of the type the result is used as')
+    ap.add_argument('--wrap', action='append', default=[], help='sym: every call of sym goes to w_<sym> (defined by the harness/model); the real body is still emitted under its own name')
     a = ap.parse_args()
     m = parse_module(open(a.ll).read())
     stubs = {}
@@ -1385,6 +1413,8 @@ def main():
             else: stubs['@' + k] = v
     e = Emitter(m, stubs); e.prefix = a.prefix
     e.rpo = a.rpo; e.vdispatch = a.vdispatch
+    e.wraps = set('@' + w for w in a.wrap)
+    e.typed_alloc = a.typed_alloc
     e.loopcuts = {}
     for lc in a.loopcut:
         fn, hook, vs = lc.split(':'); e.loopcuts.setdefault(fn, []).append(dict(hook=hook, vars=vs.split(',')))
